@@ -1,0 +1,71 @@
+#![allow(dead_code, missing_docs)]
+//! Stage dumps of the normalization pipeline (cargo feature `verif_hooks`; lives inside
+//! `normalize` to see its private pass modules). Runs the passes in the same order as
+//! `lower_helper` / `normalize_helper` and stops after the requested one.
+use super::{
+    cond_comp, inline, lower, macro_expand, precedence, prevalidate, resolve, token_check, tyinfer,
+};
+use crate::parser;
+use crate::verif_hooks::{hex, install, quiet_session, sexp};
+
+pub const STAGES: &[&str] = &[
+    "parse",
+    "prevalidate",
+    "cond_comp",
+    "resolve",
+    "precedence",
+    "macro_expand",
+    "token_check",
+    "tyinfer",
+    "lower",
+    "inline",
+];
+
+/// Returns `ok <s-expression>` for the grammar after `stage`, or `error <stage> <hex message>`
+/// for the first pass that rejects it (`error parse` for a syntax error).
+pub fn stage_dump(text: &str, features: Option<&[&str]>, stage: &str) -> String {
+    let (session, _tls) = install(quiet_session(features), text);
+    let g = match parser::parse_grammar(text) {
+        Ok(g) => g,
+        Err(_) => return "error parse".to_string(),
+    };
+    macro_rules! stop {
+        ($name:expr, $g:expr) => {
+            if stage == $name {
+                return format!("ok {}", sexp::pt_grammar(&$g));
+            }
+        };
+    }
+    macro_rules! pass {
+        ($name:expr, $e:expr) => {
+            match $e {
+                Ok(v) => v,
+                Err(e) => return format!("error {} {}", $name, hex(&e.message)),
+            }
+        };
+    }
+    stop!("parse", g);
+    pass!("prevalidate", prevalidate::validate(&g));
+    stop!("prevalidate", g);
+    let g = pass!("cond_comp", cond_comp::remove_disabled_decls(&session, g));
+    stop!("cond_comp", g);
+    let g = pass!("resolve", resolve::resolve(g));
+    stop!("resolve", g);
+    let g = pass!("precedence", precedence::expand_precedence(g));
+    stop!("precedence", g);
+    let g = pass!(
+        "macro_expand",
+        macro_expand::expand_macros(g, session.macro_recursion_limit)
+    );
+    stop!("macro_expand", g);
+    let g = pass!("token_check", token_check::validate(g));
+    stop!("token_check", g);
+    let types = pass!("tyinfer", tyinfer::infer_types(&g));
+    stop!("tyinfer", g);
+    let g = pass!("lower", lower::lower(&session, g, types));
+    if stage == "lower" {
+        return format!("ok {}", sexp::r_grammar(&g));
+    }
+    let g = pass!("inline", inline::inline(g));
+    format!("ok {}", sexp::r_grammar(&g))
+}
